@@ -26,13 +26,13 @@ def arg(id, short=None, long=None, aliases=(), valiases=(), saliases=(), action=
         tva=False, hyphen=False, negnum=False, req_eq=False, delim=None, term=None, defaults=(), missing=(),
         default_ifs=(), env=None, exclusive=False, conflicts=(), overrides=(), requires=(), requires_ifs=(),
         req_if_eq=(), req_if_eq_all=(), req_unless=(), req_unless_all=(), ignore_case=False, vp=None, index=0,
-        hide=False, hide_short=False, hide_long=False, nlh=False, help=None, hide_pv=False, disp=-1):
+        hide=False, hide_short=False, hide_long=False, nlh=False, help=None, hide_pv=False, disp=-1, heading=""):
     """num: None (unset) or (min, max) with max None = unbounded."""
     a = {
         "id": id, "idb": b(id), "short": b(short) if short else [], "long": b(long) if long else [],
         # aliases: every alias the parser answers to; valiases: the visible ones among them (Arg::visible_alias)
         "aliases": [b(x) for x in aliases] + [b(x) for x in valiases], "valiases": [b(x) for x in valiases],
-        "saliases": [b(x) for x in saliases], "action": action,
+        "saliases": [b(x) for x in saliases], "heading": heading, "action": action,
         "nset": num is not None, "nmin": num[0] if num else 0, "nmax": (INF if num[1] is None else num[1]) if num else 0,
         "required": required, "global": glob, "last": last, "tva": tva, "hyphen": hyphen, "negnum": negnum,
         "req_eq": req_eq, "delim": ord(delim) if delim else 0, "term": b(term) if term else [],
@@ -804,7 +804,8 @@ def f_help(seed=1, triples=250):
     rnd = random.Random(seed)
     D = []
     nshapes = 16
-    attr_choices = [{}, {}, {}, {"hide": True}, {"hide_short": True}, {"hide_long": True}, {"nlh": True}]
+    attr_choices = [{}, {}, {}, {"hide": True}, {"hide_short": True}, {"hide_long": True}, {"nlh": True},
+                    {"heading": "Zq Extra"}, {"heading": "Zq Extra", "hide": True}, {"heading": "Zq More", "hide_short": True}]
 
     def mk(shapes, label, settings=None, subs=()):
         args = []
